@@ -264,6 +264,81 @@ theorem mem_run_iff (regs : List (Station K)) (s : Station K) :
         refine ⟨⟨pre, post', h1, fun t ht => hp t (by simp [ht])⟩, ?_⟩
         exact fun e => hp r (by simp) e.symm
 
+/-! ### save / resume inside a history (`CNet`) -/
+
+theorem foldl_register_stations (l : List (Station K)) (n : Net K) :
+    (l.foldl Net.register n).stations = l.foldl (fun acc e => setStation e acc) n.stations := by
+  induction l generalizing n with
+  | nil => rfl
+  | cons s r ih => simp [List.foldl_cons, ih, Net.register]
+
+/-- iterating a dict with distinct keys into a fresh dict gives the same entries in the same order -/
+theorem foldl_setStation_of_nodup (l : List (Station K)) (h : (l.map (·.id)).Nodup) :
+    l.foldl (fun acc e => setStation e acc) [] = l := by
+  have := foldl_register_stations l (Net.init : Net K)
+  simp only [Net.init] at this
+  rw [← this]
+  exact run_of_nodup l h
+
+section
+variable [LT K] [DecidableLT K] [OfNat K 0]
+
+/-- the stored cache is the description of the stations the network holds -/
+def Coherent (c : CNet K) : Prop := c.cache = infoStore c.net
+
+theorem infraOkC_of_coherent (c : CNet K) (hc : Coherent c) : infraOkC c = infraOk c.net := by
+  have hcache : c.cache = infoStore c.net := hc
+  simp [infraOkC, infraOk, hcache, infoStore]
+
+theorem iface_of_coherent (c : CNet K) (hc : Coherent c) (sid : String) :
+    ifaceAllowableC c sid = ifaceAllowable c.net sid ∧ ifaceMaxC c sid = ifaceMax c.net sid ∧
+    ifaceMinC c sid = ifaceMin c.net sid := by
+  have hk := infraOkC_of_coherent c hc
+  have hcache : c.cache = infoStore c.net := hc
+  refine ⟨?_, ?_, ?_⟩
+  · simp only [ifaceAllowableC, ifaceAllowable, lookupC, lookup, hk, hcache]; rfl
+  · simp only [ifaceMaxC, ifaceMax, lookupC, lookup, hk, hcache]; rfl
+  · simp only [ifaceMinC, ifaceMin, lookupC, lookup, hk, hcache]; rfl
+
+omit [LT K] [DecidableLT K] [OfNat K 0] in
+/-- a save / resume step of a network with distinct ids gives the same network (stations, order, cache) -/
+theorem restore_eq (c : CNet K) (hn : (c.net.stations.map (·.id)).Nodup) : c.restore = c := by
+  cases c with
+  | mk net cache =>
+    cases net with
+    | mk stations nVolt =>
+      simp only [CNet.restore, CNet.save, Saved.load]
+      rw [foldl_setStation_of_nodup stations hn]
+
+theorem cnet_run_snoc (h : List (NetEv K)) (e : NetEv K) : CNet.run (h ++ [e]) = (CNet.run h).step e := by
+  simp [CNet.run, List.foldl_append]
+
+omit [LT K] [DecidableLT K] [OfNat K 0] in
+theorem regsOf_append (h g : List (NetEv K)) : regsOf (h ++ g) = regsOf h ++ regsOf g := by
+  induction h with
+  | nil => rfl
+  | cons e r ih => cases e <;> simp [regsOf, ih]
+
+/-- every history of registrations and save / resume steps ends in the network of its registrations,
+    with the cache that `_update_info_store` computes for it -/
+theorem cnet_run_eq (h : List (NetEv K)) :
+    (CNet.run h).net = Net.run (regsOf h) ∧ Coherent (CNet.run h) := by
+  induction h using List.reverseRecOn with
+  | nil => exact ⟨rfl, rfl⟩
+  | append_singleton l e ih =>
+    rw [cnet_run_snoc, regsOf_append]
+    cases e with
+    | reg s =>
+      simp only [CNet.step, CNet.register, regsOf, run_snoc, ih.1]
+      exact ⟨trivial, rfl⟩
+    | restore =>
+      have hn : (((CNet.run l).net).stations.map (·.id)).Nodup := by
+        rw [ih.1]; exact run_ids_nodup _
+      simp only [CNet.step, regsOf, List.append_nil, restore_eq _ hn]
+      exact ih
+
+end
+
 /-! ### well-formed descriptions -/
 
 /-- the parameter ranges the constructors are meant for: a non-empty interval, a non-empty level list
